@@ -326,4 +326,57 @@ func embed(h *harness, c *codec) {
 			h.checkParse(c, buf, w)
 		}
 	})
+	// an ill-formed sequence, then MORE backslash-free text than any parser can have consumed from
+	// it (one escape width, two for UTF-16), then well-formed escapes between text: whatever was done
+	// with the ill-formed part, these must still be decoded. The token and raw families are too
+	// short to reach this for the 10- and 12-byte windows of \U and \u.
+	win := c.width()
+	if c.name == "Utf16" {
+		win *= 2
+	}
+	var bad []string
+	for _, t := range c.menu {
+		if len(t) > 0 && t[0] == '\\' {
+			if _, _, ok := c.matchEscape([]byte(t)); !ok {
+				bad = append(bad, t)
+			}
+		}
+	}
+	if c.name == "Utf16" {
+		// a high surrogate followed by each ill-formed token: the second half of a pair fails to parse
+		for _, t := range append([]string(nil), bad...) {
+			for _, x := range []string{string(c.appendEsc(nil, 0xD800)) + t, string(c.appendEsc(nil, 0xDBFF)) + "z" + t} {
+				if _, cl := c.expectParse(nil, []byte(x+"b")); cl == clJunk { // D800+DC00 is a proper pair
+					bad = append(bad, x)
+				}
+			}
+		}
+	}
+	bad = append(bad, ill...)
+	ft := &fam{name: "parse/escapes-after-ill-formed-and-text", codec: c.name,
+		space: fmt.Sprintf("X·pad·e1·z·e2·b for %d ill-formed X (menu + ill-shaped list), backslash-free pad of %d and %d bytes, e1, e2 among the escapes of %X", len(bad), win, win+1, bv[:4])}
+	h.addFam(ft)
+	h.shards(ft, 1, func(_ int, w *worker) {
+		var buf []byte
+		for _, x := range bad {
+			for _, padLen := range []int{win, win + 1} {
+				for _, v1 := range bv[:4] {
+					for _, v2 := range bv[:4] {
+						buf = append(buf[:0], x...)
+						for k := 0; k < padLen; k++ {
+							buf = append(buf, "bz"[k&1])
+						}
+						buf = c.appendRuneEsc(buf, v1)
+						buf = append(buf, 'z')
+						buf = c.appendRuneEsc(buf, v2)
+						buf = append(buf, 'b')
+						if _, ok := c.junkTail(nil, buf); !ok {
+							panic("harness: the tail oracle does not apply to " + string(buf))
+						}
+						h.checkParse(c, buf, w)
+					}
+				}
+			}
+		}
+	})
 }
